@@ -386,3 +386,58 @@ def gen_typed_template(rng, resolvable=False, n=None):
     if rng.random() < 0.3:
         extra["P1"] = rng.choice(["supplied", "TRUE", "7"])
     return {"template": t, "extra": extra, "leaves": g.leaves}
+
+
+
+def vary_extra(rng, x):
+    """a second parameter assignment for the same template: differs in pseudo-parameter overrides / undeclared keys / supplied values"""
+    e = dict(x["extra"])
+    k = rng.random()
+    if k < 0.4:
+        e[rng.choice(PSEUDO_NAMES)] = rng.choice(["us-east-1", "999", "aws-cn", "other"])
+    elif k < 0.6:
+        for n in [n for n in e if n in PSEUDO_NAMES][:1]:
+            del e[n]
+    elif k < 0.8:
+        e[rng.choice(["Undeclared", "Missing", "Z9"])] = rng.choice(SAFE)
+    else:
+        decl = list((x["template"].get("Parameters") or {}))
+        if decl:
+            e[rng.choice(decl)] = rng.choice(["changed", "a,b,c", "7"])
+    return e
+
+
+class SequenceE2ESurface(E2ESurface):
+    """history: ONE parsed model resolved with several parameter assignments in a row (x["extras"]); every answer must be the one
+    a fresh parse gives -- a memo keyed on part of the inputs, or state left behind by the first call, shows here"""
+    name = "m = parse(t); [m.resolve(e) for e in extras]"
+
+    def impl(self, x):
+        import pycfmodel
+
+        def run():
+            m = pycfmodel.parse(copy.deepcopy(x["template"]))
+            out = []
+            for e in x["extras"]:
+                try:
+                    d = m.resolve(copy.deepcopy(e)).model_dump()
+                    out.append({"Conditions": resgen.to_wire(d["Conditions"]), "Resources": resgen.to_wire(d["Resources"])})
+                except Exception as ex:      # noqa
+                    out.append({"error": True})
+            return out
+        return core.impl_call(run)
+
+    def model(self, rn, x):
+        out = []
+        for e in x["extras"]:
+            m = E2ESurface.model(self, rn, {"template": x["template"], "extra": e})
+            if m[0] == "EXC" and m[1] == "EUndefined":
+                return m
+            out.append(m[1] if m[0] == "OK" else {"error": True})
+        return ("OK", out)
+
+    def agree(self, x, i, m):
+        return core.Surface.agree(self, x, i, m)
+
+    def tags(self, x):
+        return E2ESurface.tags(self, {"template": x["template"], "extra": {}}) | {"sequence"}
